@@ -333,3 +333,65 @@ def C15(ctx):
 
 
 PROPS.update({"C14": C14, "C15": C15})
+
+
+def C16(ctx):
+    t = "quick" if ctx.quick else "thorough"
+    ctx.rule = ("reader machine: every sequence of <= 3/4 lines over 15 line kinds with an I/O error at every position (loop = "
+                "declarative block reading; failure is all-or-nothing), each behaviour replayed through a scripted reader on "
+                "the real from_reader with all fields compared; random files (0-30 records, all 15 keys, repeated keys with "
+                "record-tagged values, surrounding blanks, '=' in values, missing-PKGNAME / bad-dependency / bad-location "
+                "faults, I/O error at a random line) validated line by line through the machine; non-trivial = read that "
+                "yields at least one record")
+    ctx.assumptions = ["lines with blanks between the key and '=' are not judged", "input is valid UTF-8 (invalid UTF-8 is reported by the reader as an error)"]
+    ctx.emit_replay("MC_ScanIndex", "MC_ScanIndex.%s.cfg" % t, "scan-enum")
+    ctx.exhaustive = True
+    ctx.record_validate("scanindex", q(ctx, 5000, 60000), "Tr_ScanIndex", "Tr_ScanIndex.cfg")
+
+
+PROPS["C16"] = C16
+
+
+def C20(ctx):
+    t = "quick" if ctx.quick else "thorough"
+    os.makedirs(os.path.join(core.VERIF, "work", "scratch"), exist_ok=True)
+    ctx.rule = ("databases of <= 2/3 entries over 6 names x {directory, stray file} x 8 file subsets, materialised as real "
+                "directory trees and iterated with PkgDB (multiset of (pkgname, base, version), every +FILE read back); "
+                "read_metadata histories of <= 2/3 calls over 14 entries x 7 values replayed on the real Metadata; random "
+                "trees (incl. names without '-', empty database) and histories validated by TLC; all 14 file names and "
+                "near-misses both ways; non-trivial = database with at least one valid package")
+    ctx.assumptions = ["directory order is unspecified: compared as multisets", "base/version are judged for names containing '-'",
+                       "permission errors and non-UTF-8 directory names are outside the stated quantifiers"]
+    ctx.emit_replay("MC_PkgDb", "MC_PkgDb.db.%s.cfg" % t, "db-enum")
+    ctx.emit_replay("MC_PkgDb", "MC_PkgDb.meta.%s.cfg" % t, "meta-enum")
+    ctx.exhaustive = True
+    ctx.record_validate("pkgdb", q(ctx, 1500, 15000), "Tr_PkgDb", "Tr_PkgDb.cfg", name="pkgdb")
+    ctx.record_validate("metahist", q(ctx, 4000, 40000), "Tr_PkgDb", "Tr_PkgDb.cfg", name="metahist")
+    ctx.record_validate("metaname", q(ctx, 1000, 5000), "Tr_PkgDb", "Tr_PkgDb.cfg", name="metaname")
+
+
+PROPS["C20"] = C20
+
+
+def C17(ctx):
+    t = "quick" if ctx.quick else "thorough"
+    os.makedirs(os.path.join(core.VERIF, "work", "scratch"), exist_ok=True)
+    ctx.rule = ("termination of the specification's machines (tokeniser index strictly increases, comparison index strictly "
+                "increases: TLC action properties); every entry point of the statement driven with mutated valid documents "
+                "(truncation, duplication, splicing, bit flips, 19-100 digit numbers, NUL, invalid UTF-8, multi-byte "
+                "characters, runs of up to 5000 repeated metacharacters, lone operators, unbalanced braces) under "
+                "catch_unwind and a watchdog; Summary call histories of up to 30 calls including empty lists; each "
+                "recorded outcome validated by TLC: returned normally with an outcome of the allowed shape; "
+                "non-trivial = call that returned a value rather than an error")
+    ctx.assumptions = ["brace patterns are capped at 14 '{' / ',' characters (expansion is exponential by definition)",
+                       "'promptly' = within the per-call watchdog (5 s quick / 30 s thorough) on inputs of at most a few KiB"]
+    ctx.mc("MC_DeweyTok", "MC_DeweyTok.%s.cfg" % t)
+    ctx.mc("MC_DeweyCmp", "MC_DeweyCmp.quick.cfg")
+    ctx.mc("MC_Summary", "MC_Summary.quick.cfg")
+    rounds = 1 if ctx.quick else 10
+    for i in range(rounds):
+        ctx.record_validate("hostile", 6000, "Tr_Totality", "Tr_Totality.cfg", name="hostile%d" % i,
+                            seed_offset=1000 * i)
+
+
+PROPS["C17"] = C17
